@@ -220,7 +220,9 @@ package participle
 //@   ensures @otherEntries forall(k, len(old(ctx.apply)), len(ctx.apply)-1, ctx.apply[k] != nil && ctx.apply[k].strct == parent)
 //@   before call (*participle.parseContext).Defer#1: assert forall(k, len(old(ctx.apply)), len(ctx.apply), ctx.apply[k] != nil && ctx.apply[k].strct == parent)
 //@   before call (*participle.parseContext).Defer#1: assert strct == parent && field == c.field && fieldValue == v && len(v) >= 0
-//@   before call (*participle.parseContext).Defer#1: assert tokens == ctx.tokens[from:ctx.rawCursor] && start <= from && from <= ctx.rawCursor [C11 C01 C10]
+//@   before call (*participle.parseContext).Defer#1: assert tokens == ctx.tokens[from:end] && start <= from && from <= ctx.rawCursor && ctx.rawCursor <= end && end <= ctx.rawCursor + 1 [C11 C01 C10 C17]
+// (the run reaches one past the raw cursor only for a capture whose first and only match is the unconsumed EOF token)
+//@   before call (*participle.parseContext).Defer#1: assert end > ctx.rawCursor ==> from == ctx.rawCursor && ctx.firstMatch == ctx.rawCursor [C11 C01 C10 C17]
 //@   before call (*participle.parseContext).Defer#1: assert from == ite(ctx.firstMatch >= start && ctx.firstMatch <= ctx.rawCursor, ctx.firstMatch, start) [C10 C01]
 
 // setField writes the captured values into the struct through reflection (C17); it does not touch the
